@@ -60,7 +60,7 @@ CODECS = ["ascii", "utf-8", "latin-1", "cp1251", "cp1252", "koi8-r", "shift_jis"
           "utf-8-bom"]
 STYLES = ["comment", "ie", "agree", "conflict", "none"]
 PATHS = ["bytes", "file", "moddir", "reload"]
-OUT_ENC = [None, "utf-8", "latin-1", "ascii"]
+OUT_ENC = [None, "utf-8", "latin-1", "ascii", "utf-16", "utf-8-sig", "iso2022_jp"]  # incl. encoders that carry state across the text
 ERRS = ["strict", "replace", "xmlcharrefreplace", "htmlentityreplace"]
 KNOWN_BOM = "C18-bom-alias-conflict"
 
@@ -919,9 +919,9 @@ def run(ctx):
     ev.notes["exhaustive_domains"] = (
         "sweep over one fixed 14-segment body per codec: " + (
             "codec x style x every alias spelling (agree: cyclic alias pairs) x every contradicting codec; all 6 comment "
-            "layouts for style comment, one rotating layout otherwise; 2 of 16 output configs each" if ctx.quick else
+            "layouts for style comment, one rotating layout otherwise; 2 of the output configs each" if ctx.quick else
             "codec x style x every alias spelling (agree: all alias pairs) x every contradicting codec x 6 comment "
-            "layouts x all 16 (output_encoding, encoding_errors)"))
+            "layouts x all (output_encoding, encoding_errors) pairs"))
 
 
 def replay(case):
